@@ -378,10 +378,10 @@ class SSHChannel(Generic[AnyStr], SSHPacketHandler):
             self._recv_state = 'closed'
             self._loop.call_soon(self._cleanup, exc)
 
-    def _deliver_data(self, data: bytes, datatype: DataType) -> None:
-        """Deliver incoming data to the session"""
+    def _consume_recv_window(self, datalen: int) -> None:
+        """Account for consumed data, reopening the receive window"""
 
-        self._recv_window -= len(data)
+        self._recv_window -= datalen
 
         if self._recv_window < self._init_recv_window / 2:
             adjust = self._init_recv_window - self._recv_window
@@ -391,6 +391,11 @@ class SSHChannel(Generic[AnyStr], SSHPacketHandler):
 
             self.send_packet(MSG_CHANNEL_WINDOW_ADJUST, UInt32(adjust))
             self._recv_window = self._init_recv_window
+
+    def _deliver_data(self, data: bytes, datatype: DataType) -> None:
+        """Deliver incoming data to the session"""
+
+        self._consume_recv_window(len(data))
 
         if self._encoding:
             try:
@@ -423,6 +428,10 @@ class SSHChannel(Generic[AnyStr], SSHPacketHandler):
             return
 
         if self._send_state in {'close_pending', 'closed'}:
+            # The data is dropped, but the peer must still get its window
+            # back, as it may need it to send what it has left before it
+            # can close the channel from its side
+            self._consume_recv_window(len(data))
             return
 
         if self._recv_paused:
